@@ -39,7 +39,7 @@ struct Group {
 
 fn run_group(g: &Group, r: &mut Rng, out: &mut Out) {
     let p = &g.base;
-    let first = if g.fd { run_prog_b(p, 3_000_000) } else { run_prog(p) };
+    let first = run_prog_b(p, 3_000_000);
     let fuel = model_fuel(&first);
     let line = show_run(&first, false);
     let want = multiset_of(&first);
@@ -84,7 +84,7 @@ fn run_group(g: &Group, r: &mut Rng, out: &mut Out) {
             continue;
         }
         let q = Prog { body, ..p.clone() };
-        let o = if g.fd { run_prog_b(&q, 3_000_000) } else { run_prog(&q) };
+        let o = run_prog_b(&q, 3_000_000);
         let fuel = model_fuel(&o);
         let line = show_run(&o, false);
         let got = multiset_of(&o);
